@@ -128,7 +128,61 @@ def make_oracle(fcref):
     return oracle
 
 
+def reparam_run(rng, m):
+    """A layer receives a segmented message, its padding / minimum length parameters are changed with params.set() while it is idle,
+    it receives another: the Flow Control of the second reception is the reference frame of the NEW parameters."""
+    from core import ImplInst
+    a, _ = rand_inst_pair(rng)
+    p1 = {'blocksize': rng.choice([0, 1, 2]), 'stmin': rng.choice([0, 5])}
+    if rng.random() < 0.5:
+        p1['tx_padding'] = rng.choice([0x00, 0xAA])
+    changes = rng.choice([{'tx_padding': 0x55}, {'tx_padding': None}, {'tx_data_min_length': 8}, {'tx_data_min_length': 6}, {'tx_padding': 0xCC, 'tx_data_min_length': 5}])
+    inst1 = dict(a, params=p1)
+    p2 = dict(p1); p2.update(changes)
+    p2 = {k: v for k, v in p2.items() if v is not None}
+    inst2 = dict(a, params=p2)
+    rid, ext, pfx = reach(inst1)
+    im = ImplInst(inst1)
+    fcs = []
+    try:
+        for phase in (1, 2):
+            payload = bytes(rng.getrandbits(8) for _ in range(rng.choice([10, 20, 30])))
+            for f in encode_stream(payload, 8, pfx, 'min'):
+                im.run_op([0, 'rx', rid, int(ext), hx(f)])
+                line = im.run_op([0, 'proc', 1, 1])
+                for e in split_line(line)[0]:
+                    if e.startswith('tx:'):
+                        fcs.append((phase, e[3:]))
+            if phase == 1:
+                for k_, v in changes.items():
+                    im.layer.params.set(k_, v)
+    finally:
+        import time as _t
+        from core import _REAL
+        _t.perf_counter_ns, _t.perf_counter = _REAL
+    setup_spec(m, inst2)
+    ref2 = m.query('fc 0')
+    got2 = [f for ph, f in fcs if ph == 2]
+    fails = []
+    if not got2 or any(f != ref2 for f in got2):
+        fails.append(('C03:flow-control-differs', 'after params.set(%s) the Flow Control of the next reception is %s, reference for the new parameters %s' % (changes, got2[:2], ref2)))
+    return fails, {'inst': inst1, 'changes': {k: v for k, v in changes.items()}, 'fcs': len(fcs)}
+
+
 def run_shard(campaign, shard, nshards, seed, tier):
+    if campaign == 'reparam':
+        part = Part()
+        rng = random.Random('%s/%s/%s' % (seed, campaign, shard))
+        m = lc.model()
+        for _ in range((60 if tier != 'thorough' else 3000) // nshards + 1):
+            fails, info = reparam_run(rng, m)
+            part.d['evaluations'] += 1
+            part.distinct(info)
+            part.hist('reparam', str(sorted(info['changes'])))
+            if fails:
+                part.violation('oracle', campaign, fails[0][0], fails[0][1], {'scenario': 'reparam', 'info': info})
+            part.sample(info)
+        return part.result()
     part = Part()
     rng = random.Random('%s/%s/%s' % (seed, campaign, shard))
     quick = tier != 'thorough'
@@ -150,4 +204,5 @@ def run_shard(campaign, shard, nshards, seed, tier):
 
 def run(ctx):
     run_sharded(ctx, 'C03', 'streams', nshards=16)
+    run_sharded(ctx, 'C03', 'reparam')
     return RULE, ASSUME
